@@ -422,6 +422,16 @@ def verify_function(interp, contract: Contract, inst: Instance, prop_prefix=""):
         args, kwargs = inst.build(interp, ctx, SymNamer())
         pristine_args, pristine_kwargs = inst.build(interp, ctx, SymNamer())   # identical symbols, separate objects
         mark_inputs(ctx, args, kwargs)
+        if getattr(contract, "sanctioned_out", False) and kwargs.get("out") is not None:
+            # the one sanctioned mutation: an explicit out= naming a signal/array as the target
+            for o in kwargs["out"]:
+                arr = o.ghost["data"] if isinstance(o, Obj) and getattr(o, "ghost", None) else o
+                if isinstance(o, Obj):
+                    for f in o.fields.values():
+                        if isinstance(f, SArr):
+                            ctx.sanctioned |= set(f.owner)
+                if isinstance(arr, SArr):
+                    ctx.sanctioned |= set(arr.owner)
         interp.no_contract.add(contract.qualname)
         try:
             if contract.body is not None:
@@ -527,4 +537,6 @@ def check_inputs_unchanged(interp, ctx, args, kwargs, pargs, pkwargs):
     for i, (a, p) in enumerate(zip(args, pargs)):
         walk(a, p, f"arg{i}")
     for k in kwargs:
+        if k == "out" and ctx.sanctioned:
+            continue
         walk(kwargs[k], pkwargs[k], k)
